@@ -171,14 +171,16 @@ impl Outgoing {
     // Returns (unsolicited, outoforder) flags
     // Return: Out of order or unsolicited acks
     pub fn register_ack(&mut self, pkid: u16) -> Option<()> {
-        let (head, _filter_idx, _cursor) = self.inflight_buffer.pop_front()?;
+        let (head, _filter_idx, _cursor) = *self.inflight_buffer.front()?;
 
-        // We don't support out of order acks
+        // We don't support out of order acks. The rejected ack must not consume
+        // the oldest inflight publish: it is still unacked and has to be retransmitted
         if pkid != head {
             error!(pkid, head, "out of order ack.");
             return None;
         }
 
+        self.inflight_buffer.pop_front();
         Some(())
     }
 
@@ -193,7 +195,7 @@ impl Outgoing {
     // But we don't support out of order / unsolicited pubcomps
     // to be consistent with the behaviour with other acks
     pub fn register_pubcomp(&mut self, pkid: u16) -> Option<()> {
-        let id = self.unacked_pubrels.pop_front()?;
+        let id = *self.unacked_pubrels.front()?;
 
         // out of order acks
         if pkid != id {
@@ -201,6 +203,7 @@ impl Outgoing {
             return None;
         }
 
+        self.unacked_pubrels.pop_front();
         Some(())
     }
 
